@@ -440,36 +440,49 @@ var rSecondaryAttach = &Rule{
 			}
 			return n
 		}
-		// WithSecondaryError
-		n1 := eachReturned(with, func(v ssa.Value, pos token.Pos) {
-			ok := false
-			why := "the returned value is " + describeVal(v)
-			if mi, isMI := v.(*ssa.MakeInterface); isMI {
-				if al, isAl := mi.X.(*ssa.Alloc); isAl && sx.IsNamed(al.Type(), load.ModPath+"/secondary", "withSecondaryError") {
-					got := map[string]ssa.Value{}
-					for _, r := range *al.Referrers() {
-						if fa, isFA := r.(*ssa.FieldAddr); isFA {
-							for _, u := range *fa.Referrers() {
-								if st, isSt := u.(*ssa.Store); isSt && st.Addr == ssa.Value(fa) {
-									got[fieldNameOf(fa)] = st.Val
-								}
-							}
+		// a returned value is acceptable when it is a fresh wrapper holding exactly the two parameters, or the result
+		// of WithSecondaryError applied to them
+		attached := func(fn *ssa.Function, v ssa.Value) (bool, string) {
+			if call, isCall := v.(*ssa.Call); isCall {
+				if sx.Callee(call) == with && fn != with && len(call.Call.Args) == 2 && call.Call.Args[0] == ssa.Value(fn.Params[0]) && call.Call.Args[1] == ssa.Value(fn.Params[1]) {
+					return true, ""
+				}
+				return false, "the returned value is " + describeVal(v)
+			}
+			mi, isMI := v.(*ssa.MakeInterface)
+			if !isMI {
+				return false, "the returned value is " + describeVal(v)
+			}
+			al, isAl := mi.X.(*ssa.Alloc)
+			if !isAl || !sx.IsNamed(al.Type(), load.ModPath+"/secondary", "withSecondaryError") {
+				return false, "the returned value is " + describeVal(v)
+			}
+			got := map[string]ssa.Value{}
+			for _, r := range *al.Referrers() {
+				if fa, isFA := r.(*ssa.FieldAddr); isFA {
+					for _, u := range *fa.Referrers() {
+						if st, isSt := u.(*ssa.Store); isSt && st.Addr == ssa.Value(fa) {
+							got[fieldNameOf(fa)] = st.Val
 						}
 					}
-					ok = got["cause"] == ssa.Value(with.Params[0]) && got["secondaryError"] == ssa.Value(with.Params[1])
-					why = "the new wrapper's cause / secondaryError fields are not the two parameters themselves"
 				}
 			}
+			if got["cause"] == ssa.Value(fn.Params[0]) && got["secondaryError"] == ssa.Value(fn.Params[1]) {
+				return true, ""
+			}
+			return false, "the new wrapper's cause / secondaryError fields are not the two parameters themselves"
+		}
+		n1 := eachReturned(with, func(v ssa.Value, pos token.Pos) {
+			ok, why := attached(with, v)
 			c.Check(ok, "secondary.WithSecondaryError: result for two non-nil errors", pos, "a fresh *withSecondaryError{cause: err, secondaryError: additionalErr}",
 				"with both errors non-nil, WithSecondaryError can return something other than a new wrapper holding both: "+why+" - the secondary error (its details, stack, safe strings) is dropped")
 		})
 		c.Check(n1 >= 1, "secondary.WithSecondaryError: reachable returns", with.Pos(), "at least one", "no return is reachable for two non-nil errors")
 		// CombineErrors
 		n2 := eachReturned(comb, func(v ssa.Value, pos token.Pos) {
-			call, isCall := v.(*ssa.Call)
-			ok := isCall && sx.Callee(call) == with && len(call.Call.Args) == 2 && call.Call.Args[0] == ssa.Value(comb.Params[0]) && call.Call.Args[1] == ssa.Value(comb.Params[1])
-			c.Check(ok, "secondary.CombineErrors: result for two non-nil errors", pos, "WithSecondaryError(err, otherErr)",
-				"with both errors non-nil, CombineErrors can return "+describeVal(v)+" instead of WithSecondaryError(err, otherErr): the secondary error is silently dropped on that path")
+			ok, why := attached(comb, v)
+			c.Check(ok, "secondary.CombineErrors: result for two non-nil errors", pos, "WithSecondaryError(err, otherErr) or the wrapper it builds",
+				"with both errors non-nil, CombineErrors can return something that does not hold both errors ("+why+"): the secondary error is silently dropped on that path")
 		})
 		c.Check(n2 >= 1, "secondary.CombineErrors: reachable returns", comb.Pos(), "at least one", "no return is reachable for two non-nil errors")
 	},
@@ -950,39 +963,70 @@ var rUnwrapAll = &Rule{
 			return
 		}
 		l := loops[0]
-		// induction variable
-		var cur *ssa.Phi
+		// Two spellings are recognised.
+		//  (A) c = φ(err, UnwrapOnce(c));                       leave when UnwrapOnce(c) == nil
+		//  (B) c = φ(err, n), n = φ(UnwrapOnce(err), UnwrapOnce(n));  leave when n == nil   (n is always UnwrapOnce(c))
+		var phis []*ssa.Phi
 		for _, in := range l.Header.Instrs {
 			if ph, ok := in.(*ssa.Phi); ok && sx.IsErrorType(ph.Type()) {
-				cur = ph
+				phis = append(phis, ph)
 			}
 		}
+		stepOf := func(v ssa.Value) ssa.Value {
+			call, ok := v.(*ssa.Call)
+			if ok && sx.Callee(call) != nil && sx.Callee(call).Name() == "UnwrapOnce" && len(call.Call.Args) == 1 {
+				return call.Call.Args[0]
+			}
+			return nil
+		}
+		edges := func(ph *ssa.Phi) (init, back ssa.Value, ok bool) {
+			ok = true
+			for i, e := range ph.Edges {
+				if l.Body[l.Header.Preds[i]] {
+					if back != nil && back != e {
+						ok = false
+					}
+					back = e
+				} else {
+					if init != nil && init != e {
+						ok = false
+					}
+					init = e
+				}
+			}
+			return init, back, ok && init != nil && back != nil
+		}
+		var cur *ssa.Phi
+		var next ssa.Value // the value that is UnwrapOnce(cur) and decides the exit
+		isStep := func(v ssa.Value) bool { return cur != nil && stepOf(v) == ssa.Value(cur) }
+		for _, ph := range phis {
+			init, back, ok := edges(ph)
+			if !ok || init != ssa.Value(fn.Params[0]) {
+				continue
+			}
+			if stepOf(back) == ssa.Value(ph) { // (A)
+				cur = ph
+				continue
+			}
+			if nph, isPhi := back.(*ssa.Phi); isPhi && nph.Block() == l.Header { // (B)
+				ni, nb, ok2 := edges(nph)
+				if ok2 && stepOf(ni) == ssa.Value(fn.Params[0]) && stepOf(nb) == ssa.Value(nph) {
+					cur, next = ph, nph
+				}
+			}
+		}
+		c.Check(cur != nil, "errbase.UnwrapAll: induction", fn.Pos(), "c starts at err and advances with UnwrapOnce(c)", "the walk does not start at the argument or does not advance with UnwrapOnce of the current error")
 		if cur == nil {
-			c.Undecided("errbase.UnwrapAll", fn.Pos(), "no error-typed induction variable in the loop header")
 			return
 		}
-		isStep := func(v ssa.Value) bool {
-			call, ok := v.(*ssa.Call)
-			return ok && sx.Callee(call) != nil && sx.Callee(call).Name() == "UnwrapOnce" && len(call.Call.Args) == 1 && call.Call.Args[0] == ssa.Value(cur)
-		}
-		okStep := true
-		for i, e := range cur.Edges {
-			if l.Body[l.Header.Preds[i]] {
-				if !isStep(e) {
-					okStep = false
-				}
-			} else if e != ssa.Value(fn.Params[0]) {
-				okStep = false
-			}
-		}
-		c.Check(okStep, "errbase.UnwrapAll: induction", cur.Pos(), "c starts at err and advances with UnwrapOnce(c)", "the walk does not start at the argument or does not advance with UnwrapOnce of the current error")
 		for _, e := range l.exitEdges() {
 			from := e[0]
 			ifi, ok := from.Instrs[len(from.Instrs)-1].(*ssa.If)
 			good := false
 			if ok {
 				if bin, isBin := ifi.Cond.(*ssa.BinOp); isBin && (bin.Op == token.EQL || bin.Op == token.NEQ) {
-					good = (isStep(bin.X) && sx.IsNil(bin.Y)) || (isStep(bin.Y) && sx.IsNil(bin.X))
+					dec := func(v ssa.Value) bool { return isStep(v) || (next != nil && v == next) }
+					good = (dec(bin.X) && sx.IsNil(bin.Y)) || (dec(bin.Y) && sx.IsNil(bin.X))
 				}
 			}
 			c.Check(good, "errbase.UnwrapAll: loop exit", lastPos(from), "decided by UnwrapOnce(c) == nil alone", "the loop can be left on a condition other than UnwrapOnce(c) == nil: the result is not the root cause that pkg/errors.Cause returns")
